@@ -1,11 +1,21 @@
 #!/bin/bash
-# Cross matrix: every seeded change and hand mutant against every quick check, on the scratch worktree /tmp/mut.
+# Cross matrix: every seeded change and hand mutant against every quick check.
+# Three workers, each on its own scratch worktree (/tmp/mut, /tmp/mut2, /tmp/mut3).
 cd /verif
 out=${1:-/verif/seeded/MATRIX.txt}
-: > "$out.tmp"
-for d in seeded/*/ mutants/*/; do
-  [ -f "$d/patch.diff" ] || continue
-  r=$(tools/mutant_alt.sh /tmp/mut "$d/patch.diff" ALL 2>&1 | grep -E "^(MUTANT|INFRA|BASELINE|DOES|PATCH)" | tr '\n' ' ')
-  echo "$(basename $d): $r" | sed 's#MUTANT /verif/[^ ]* ##' >> "$out.tmp"
-done
-mv "$out.tmp" "$out"
+ls -d seeded/*/ mutants/*/ > /tmp/matrix.list
+rm -f /tmp/matrix.part.*
+worker() {
+  wt=$1; idx=$2
+  i=0
+  while read d; do
+    if [ $((i % 3)) -eq $idx ] && [ -f "$d/patch.diff" ]; then
+      r=$(tools/mutant_alt.sh $wt "$d/patch.diff" ALL 2>&1 | grep -E "^(MUTANT|INFRA|BASELINE|DOES|PATCH)" | tr '\n' ' ')
+      echo "$(basename $d): $r" | sed 's#MUTANT /verif/[^ ]* ##' >> /tmp/matrix.part.$idx
+    fi
+    i=$((i+1))
+  done < /tmp/matrix.list
+}
+worker /tmp/mut 0 & worker /tmp/mut2 1 & worker /tmp/mut3 2 &
+wait
+cat /tmp/matrix.part.* | sort > "$out"
